@@ -122,6 +122,25 @@ PROPS = {
               '(the comparison operators are proved under C16).',
         note='Exact rational arithmetic is the oracle; the enumerated domain is written into evidence.coverage.',
         technique='bounded native containment check of the real interval operations against exact rational arithmetic (stand-in, not a proof)'),
+    'C29': dict(
+        title='root finders return genuine roots', level='proof', engines=['guards'], no_units=True,
+        claim='Control/data-flow contracts decided for all inputs by enumerating every path of the real function bodies '
+              '(unmodelled data havocked): (1) with verify=True every value findroot returns at its final `return x` went '
+              'through the check `not norm(f(*xl))**2 > tol` on the same x on that path, the only other returns being the '
+              'starting point when norm(f(x0)) == 0; (2) MNewton binds a user-supplied df / d2f keyword to the attribute '
+              'that the iteration uses. Not applicable (analytic): convergence and accuracy of the solvers, bracketing '
+              'containment, multiple-root accuracy 2^(4-p/m), ordering of polyroots.',
+        note='f and norm are assumed deterministic; a NaN residual makes `>` false and is the one input class for which '
+             'the clause is not implied. The precision frame of findroot is decided under C11.',
+        technique='deductive control-flow contracts: guard-dominates-return and keyword-dataflow clauses over all paths of the real code'),
+    'C35': dict(
+        title='integer relation results are genuine relations', level='proof', engines=['guards'], no_units=True,
+        claim='Control-flow contract of pslq, for all inputs: every vector returned went through `err < tol` and '
+              '`max(abs(v) for v in vec) < maxcoeff` on that path after it was built, and is built as a list of Python ints. '
+              'Not applicable: that the returned vector is a genuine relation |sum c_k x_k| <= tol*||x|| (the success test is '
+              'on the reduced vector; this rests on the PSLQ matrix invariant in fixed point), non-zero-ness, findpoly/identify.',
+        note='Only which checks dominate which returns is decided; the tested data is not interpreted.',
+        technique='deductive control-flow contract: guard-dominates-return over all paths of the real pslq body'),
     'C11': dict(
         title='working precision restored on every exit', level='proof', engines=['precframe'], no_units=True,
         claim='For every function, method, nested function and lambda in mpmath (outside tests and libmp; 1093 on this tree) '
@@ -155,13 +174,11 @@ NOT_APPLICABLE = {
     'C26': 'convergence/accuracy of quadrature on classes of integrands is analytic',
     'C27': 'convergence of series/limits/extrapolation is analytic',
     'C28': 'accuracy of numerical differentiation/Taylor/Pade is analytic',
-    'C29': 'not built yet (findroot verify clause, MNewton kwargs)',
     'C30': 'backward-error statements about floating-point LU/QR are numerical analysis, not VCs',
     'C31': 'eigen/SVD residual bounds are numerical analysis',
     'C32': 'matrix function identities to a tolerance are numerical analysis',
     'C33': 'not built yet (cache protocol contracts)',
     'C34': 'accuracy of ODE Taylor stepping is analytic',
-    'C35': 'not built yet (pslq return guards)',
     'C36': 'approximation accuracy is analytic',
     'C38': 'not built yet (context ownership contracts)',
     'C39': 'not built yet (mag / nint_distance / classification contracts)',
